@@ -4,6 +4,15 @@ NOTES = ("Technique: machine-checked proof in Lean 4 about a hand-written execut
          "correspondence run on every check (DESIGN.md). fix: commits in /repo are listed in known_findings.json.")
 NOT_APPLICABLE = {}
 CHECKS = {
+    "C06": {
+        "text": ("Lean theorems (unbounded): in the abstract sender LTS (any number of workers, any queue discipline, any interleaving, any read split) the DATA "
+                 "payloads per id always form a prefix of the file at that STAT index, the whole file once terminated, and only announced regular entries carry "
+                 "data (sender_data; inductive invariant invariant_step). The same LTS runs as the acceptor of the boundary-event log of real Send runs against "
+                 "an independent reference receiver (request scripts: subsets, orders, racing the STAT stream, bursts > 132, unknown/non-file/duplicate ids); "
+                 "further clauses (STATs = view + one end marker, FIN echo, failure on bad ids, progress callbacks, bytes) are checked on the log."),
+        "note": ("Trusted: Lean kernel + standard axioms; payload bytes are compared by the harness's reference receiver (the acceptor replays lengths and order); "
+                 "the acceptor constrains nothing after an invalid request except that Send fails; schedules are those the seeded stream capacities/delays produce."),
+    },
     "C01": {
         "text": ("Lean theorems (unbounded): the change events computed for (old destination listing, source listing) applied to the old listing give exactly "
                  "the source listing (transfer_events_converge, both differs); in merge mode only additions are emitted (merge_never_deletes). "
